@@ -52,10 +52,17 @@ def split_replies(ops, out):
 
 
 def run_cases(exe, drv, cases, B=40):
-    """returns list of (case, impl replies | None, model replies, crash info | None)"""
+    """returns list of (case, impl replies | None, model replies, crash info | None); batches run on a thread pool"""
+    from concurrent.futures import ThreadPoolExecutor
+    batches = [cases[b0:b0 + B] for b0 in range(0, len(cases), B)]
+    with ThreadPoolExecutor(max_workers=vlib.jobs()) as ex:
+        parts = list(ex.map(lambda b: run_batch(exe, drv, b), batches))
+    return [x for part in parts for x in part]
+
+
+def run_batch(exe, drv, batch):
     results = []
-    for b0 in range(0, len(cases), B):
-        batch = cases[b0:b0 + B]
+    for _ in (0,):
         ops = [o for c in batch for o in c.ops]
         mo, mrc, merr = vlib.run_lines(drv, ops)
         io, rc, err = vlib.run_lines(exe, ops, timeout=300)
@@ -89,9 +96,10 @@ def run_msan(exe, cases, B=40):
     """second build of the same harness under MemorySanitizer: the scripted transport formats every byte it is handed,
     so a byte that stems from uninitialised memory (C14) or a decision taken on one (C04) stops the run.
     returns list of (case, rc, stderr)"""
-    bad = []
-    for b0 in range(0, len(cases), B):
-        batch = cases[b0:b0 + B]
+    from concurrent.futures import ThreadPoolExecutor
+
+    def one(batch):
+        bad = []
         ops = [o for c in batch for o in c.ops]
         o, rc, err = vlib.run_lines(exe, ops, timeout=300)
         if rc != 0:
@@ -99,7 +107,11 @@ def run_msan(exe, cases, B=40):
                 o1, rc1, err1 = vlib.run_lines(exe, c.ops, timeout=120)
                 if rc1 != 0:
                     bad.append((c, rc1, err1))
-    return bad
+        return bad
+    batches = [cases[b0:b0 + B] for b0 in range(0, len(cases), B)]
+    with ThreadPoolExecutor(max_workers=vlib.jobs()) as ex:
+        parts = list(ex.map(one, batches))
+    return [x for part in parts for x in part]
 
 
 def crash_signature(err):
@@ -216,7 +228,7 @@ def run(pid, tier):
         return rep.finish()
 
     r = vlib.rng(pid)
-    n_sync = {"quick": 3000, "thorough": 60000}[tier]
+    n_sync = {"quick": 6000, "thorough": 150000}[tier]
     cases = []
     cdir = os.path.join(vlib.VERIF, "corpus", "rtr")
     ncorpus = 0
@@ -241,7 +253,7 @@ def run(pid, tier):
     def run_model(ops):
         o, rc_, err_ = vlib.run_lines(drv, ops)
         return o
-    n_fsm = {"quick": 240, "thorough": 6000}[tier]
+    n_fsm = {"quick": 600, "thorough": 20000}[tier]
     fsm_cases = []
     rf = vlib.rng(pid + "/fsm")
     fdir = os.path.join(vlib.VERIF, "corpus", "rtr")
@@ -252,11 +264,15 @@ def run(pid, tier):
                 c.ops = [l.strip() for l in open(os.path.join(fdir, f)) if l.strip() and not l.startswith("#")]
                 c.meta = {"mut": "corpus:" + f, "used": ["corpus"], "good_tail": 0}
                 fsm_cases.append(c)
-    for i in range(n_fsm):
+    from concurrent.futures import ThreadPoolExecutor
+
+    def gen_one(i):
+        ri = vlib.rng("%s/fsm/%d" % (pid, i))       # one PRNG per case, derived from VERIF_SEED: order-independent, replays exactly
         if i % 4 == 3:
-            fsm_cases.append(rtrgen.gen_fsm_case(rf, run_model, nsteps=rf.randrange(1, 6), good_tail=16))
-        else:
-            fsm_cases.append(rtrgen.gen_fsm_case(rf, run_model))
+            return rtrgen.gen_fsm_case(ri, run_model, nsteps=ri.randrange(1, 6), good_tail=16)
+        return rtrgen.gen_fsm_case(ri, run_model)
+    with ThreadPoolExecutor(max_workers=vlib.jobs()) as ex:
+        fsm_cases += list(ex.map(gen_one, range(n_fsm)))
     allcases = cases + [v for _, v in variants] + fsm_cases
     fsm_ids = set(id(c) for c in fsm_cases)
     results = run_cases(exe, drv, allcases)
